@@ -63,8 +63,10 @@ impl Scope for Bucket {
     }
 }
 
-const HOSTILE: [&str; 14] = [
+const HOSTILE: [&str; 18] = [
     "a&b", "x<y", "p>q", "say\"hi\"", "it's", "&amp;", "a&lt;b", "naïve", "日本", "sp ace", "semi;colon", "plus+sign", "tab\there", "]]>cdata",
+    // white space at the very end of a key (and of its final path segment) belongs to the key
+    "trail ", "trail\t", "two  ", "<!--c-->",
 ];
 
 fn key_tail(rng: &mut Rng, i: usize, hostile: bool, nested: bool) -> String {
@@ -373,7 +375,14 @@ fn run_download(obs: &mut Obs, rng: &mut Rng, idx: u64, big: usize) {
     let site = s3sim::fresh_site();
     let archive_mode = rng.chance(1, 2);
     let status = *rng.pick(&[200u16, 200, 200, 200, 404, 403, 500, 301, 0]); // 0 = object absent
-    let lm = if rng.chance(1, 8) { None } else { Some(1_600_000_000 + rng.below(200_000_000) as i64) };
+    // Last-Modified: absent, in the past, or (a sixth) later than this machine's clock - minutes
+    // ahead as with skewed clocks, or years ahead
+    let lm = match rng.below(12) {
+        0 => None,
+        1 => Some(chrono::Utc::now().timestamp() + 60 * rng.range(2, 600) as i64),
+        2 => Some(2_147_483_648 + rng.below(1_000_000_000) as i64),
+        _ => Some(1_600_000_000 + rng.below(150_000_000) as i64),
+    };
     let size = match rng.below(6) {
         0 => 0,
         1 => rng.usize_below(6),
